@@ -350,8 +350,7 @@ def show(x, write=True):
     if x is Nil:
         return "()"
     if isinstance(x, Pair):
-        if isinstance(x.car, Sym) and isinstance(x.cdr, Pair) and x.cdr.cdr is Nil and x.car.name in ("quote", "quasiquote", "unquote", "unquote-splicing"):
-            return {"quote": "'", "quasiquote": "`", "unquote": ",", "unquote-splicing": ",@"}[x.car.name] + show(x.cdr.car, write)
+        # (quote x) etc. are written in long form, as chibi's writer does (R7RS allows either)
         parts = []
         while isinstance(x, Pair):
             parts.append(show(x.car, write))
@@ -1255,6 +1254,9 @@ def sf_quasiquote(m, x, env, k):
             if isinstance(t.car, Sym) and t.car.name == "unquote" and isinstance(t.cdr, Pair):
                 if depth == 1:
                     return m.ev(t.cdr.car, env, Cont(lambda v: kk(m.single(v)), k.dyn))
+                return qq(t.cdr.car, depth - 1, lambda v: kk(Pair(t.car, Pair(v, Nil))))
+            if isinstance(t.car, Sym) and t.car.name == "unquote-splicing" and isinstance(t.cdr, Pair) and depth > 1:
+                # R7RS 4.2.8: unquote-splicing decreases the nesting level like unquote
                 return qq(t.cdr.car, depth - 1, lambda v: kk(Pair(t.car, Pair(v, Nil))))
             if isinstance(t.car, Sym) and t.car.name == "quasiquote" and isinstance(t.cdr, Pair):
                 return qq(t.cdr.car, depth + 1, lambda v: kk(Pair(t.car, Pair(v, Nil))))
